@@ -2,14 +2,14 @@
    Model: Model/IoOp.v (one operation's life: perform / deliver_data / result tables / dispose / get_error; the stream's
    operation lists).  Every theorem quantifies over ALL event sequences: any system call results (partial transfers, EAGAIN,
    EINTR, EOF, errors), any placement of close / stop / timer ticks / cleanup between the steps of the handler.
-   Proved here: read conservation + high water, completion flush, done exactly once and last, low water (as coded),
-   ECANCELED after close/stop, the current stream operation is kept until it completes.
-   NOT proved (left to the end-to-end oracle of lib/props/c14.py, which checks them on every run):
-     C14_write_conservation  (bytes accepted by the descriptor ++ final unwritten data = submitted data): the model
-        (dd_data, write branch; alloc_buf; perform) is executable and tied, the invariant proof is not done;
-     C14_stream_order at full strength (completion order = enqueue order per channel including cleanup_ops): only the
-        "current operation is kept until it completes" half is proved (C14_stream_order_partial);
-     C14_barrier_between, C14_cleanup_once_after_handlers: depend on groups / suspend / resume / queues (C07/C06/C02). *)
+   Proved here: read conservation + high water, completion flush, write conservation, done exactly once and last, low
+   water (as coded), ECANCELED after close/stop, per-channel FIFO completion of stream operations over the stream's
+   operation lists (cleanup included) with I/O on one operation at a time, and the barrier clause over the channel's
+   barrier_queue / barrier_group bookkeeping.
+   Used as semantics, not re-proved here: serial queues are FIFO and run one block at a time (C02), a suspended queue runs
+   nothing (C06), the group counts outstanding enters and submits a notification registered at count zero at once (C07).
+   NOT proved: C14_cleanup_once_after_handlers (fd_entry reference counting and the close_queue resume chain); it is
+   checked by the end-to-end oracle of lib/props/c14.py on every run. *)
 From Coq Require Import ZArith List Bool.
 From Verif Require Import Word IoOp IoOp_proofs.
 Import ListNotations.
@@ -87,18 +87,66 @@ Theorem C14_canceled_after_stop : forall c s e,
 Proof. exact canceled_after_stop. Qed.
 Print Assumptions C14_canceled_after_stop.
 
-Theorem C14_stream_order_partial : forall q op e,
-  q_cur q = Some op -> so_random op = false ->
-  (match e with SEnq _ | SHandler HKeep => True | _ => False end) ->
-  q_cur (sstep q e) = Some op /\ pick_next (sstep q e) = Some op /\ q_done (sstep q e) = q_done q.
-Proof. exact stream_current_kept. Qed.
-Print Assumptions C14_stream_order_partial.
+(* writes: the bytes the descriptor accepted are, in order, a prefix of the submitted data; every invocation that carries
+   data reports exactly the remainder after the bytes accepted at that moment (never more progress than was made); the
+   completed operation's last invocation has done, accepted ++ its data = submitted; error 0 <-> data NULL and all accepted *)
+Theorem C14_write_conservation : forall c disk conv d p iv strict evs,
+  0 <= p_high p ->
+  let sub := flat d in
+  let s0 := st_init (op_init true disk conv (zlen sub) d p iv strict) in
+  wrun_ok c s0 evs ->
+  let s := run c s0 evs in
+  s_io s = firstn (Z.to_nat (zlen (s_io s))) sub /\
+  Forall (fun k => 0 <= c_total k <= zlen (s_io s) /\
+                   forall l, c_data k = Some l -> firstn (Z.to_nat (c_total k)) sub ++ l = sub) (s_calls s) /\
+  (s_phase s = Completed ->
+     exists pre k, s_calls s = pre ++ [k] /\ c_done k = true /\ s_io s ++ cbytes k = sub /\
+       (c_err k = 0 -> c_data k = None /\ s_io s = sub) /\
+       (c_err k <> 0 -> c_data k = Some (skipn (Z.to_nat (zlen (s_io s))) sub))).
+Proof. exact write_conservation. Qed.
+Print Assumptions C14_write_conservation.
 
-Theorem C14_stream_completion_is_of_current : forall q op,
-  q_cur q = Some op -> so_random op = false ->
-  q_done (sstep q (SHandler HComplete)) = q_done q ++ [op] /\ q_cur (sstep q (SHandler HComplete)) = None.
-Proof. exact stream_completion_is_of_current. Qed.
-Print Assumptions C14_stream_completion_is_of_current.
+(* stream operations of one channel (and direction: one stream per direction) complete in the order they were enqueued:
+   completed ones followed by those still on the STREAM list = the enqueued ones, per channel, for every sequence of
+   enqueues, handler passes with any result, and cleanups for any channel or for the whole descriptor *)
+Theorem C14_stream_order : forall evs c,
+  srun_ok stream_init evs ->
+  let q := srun stream_init evs in
+  fch c (nonrandom (q_done q)) ++ fch c (q_s q) = fch c (nonrandom (q_enq q)).
+Proof. exact stream_order. Qed.
+Print Assumptions C14_stream_order.
+
+(* ... and the data of operation k comes entirely before the data of operation k+1: I/O is performed only on the head of
+   the STREAM list, operations behind the head have performed none, completed ones are never picked again *)
+Theorem C14_stream_io_one_at_a_time : forall evs,
+  srun_ok stream_init evs ->
+  let q := srun stream_init evs in
+  (forall op, pick_next q = Some op -> so_random op = false -> exists t, q_s q = op :: t) /\
+  Forall (fun op => ~ In (so_id op) (q_io q)) (tl (q_s q)) /\
+  (forall op d, pick_next q = Some op -> In d (nonrandom (q_done q)) -> so_id op <> so_id d).
+Proof. exact stream_io_one_at_a_time. Qed.
+Print Assumptions C14_stream_io_one_at_a_time.
+
+(* dispatch_io_barrier: whenever a barrier block has been submitted (and so when it runs), every operation submitted
+   before it has been enqueued and disposed, nothing submitted after it has been enqueued; for the group as coded
+   (a = false) and for the ideal group (a = true) *)
+Theorem C14_barrier_between : forall a evs id,
+  brun_ok a b_init evs ->
+  let s := brun a b_init evs in
+  In id (b_fired s) ->
+  exists pre, b_sub s = pre ++ [IBar id] ++ b_q s /\
+    (forall op, In (IEnq op) pre -> In (LDone op) (b_log s)) /\
+    (forall op, In (IEnq op) (b_q s) -> ~ In (LEnq op) (b_log s)) /\
+    b_out s = [].
+Proof. exact barrier_between. Qed.
+Print Assumptions C14_barrier_between.
+
+Theorem C14_barrier_not_stranded : forall a evs,
+  brun_ok a b_init evs ->
+  let s := brun a b_init evs in
+  b_notifs s <> [] -> b_out s <> [] \/ b_wake s = 1%nat.
+Proof. exact barrier_not_stranded. Qed.
+Print Assumptions C14_barrier_not_stranded.
 
 (* non-vacuity: a 200-byte read, low 10, high 64, fed 5 / EAGAIN / 30 / EAGAIN / 64 / 36 / 64 / 1 bytes (the first corpus
    scenario of the harness): hypotheses hold and the model delivers 35, 64, 36, 64 and the final byte with done *)
@@ -114,3 +162,24 @@ Example C14_nonvacuous :
   map call_obs (s_calls (run c s0 evs)) = [(false, 35, 0); (false, 64, 0); (false, 36, 0); (false, 64, 0); (true, 1, 0)] /\
   s_phase (run c s0 evs) = Completed.
 Proof. vm_compute. repeat split; auto; discriminate. Qed.
+
+(* a 10-byte write in two regions; the descriptor takes 4, then EAGAIN, then the channel is stopped: done with ECANCELED and
+   the 6 unwritten bytes; stream: two operations of channel 1 and one of channel 2, stop of channel 1 while the first is
+   current; barrier 7 between operations 1 and 2 *)
+Example C14_nonvacuous_write_stream_barrier :
+  let c := Build_cfg 4096 false in
+  let d := [[1;2;3]; [4;5;6;7;8;9;10]] in
+  let s0 := st_init (op_init true false false 10 d (params_init 4096 1) false false) in
+  let evs := [EvCheck; EvPerform [Got (zeros 4)]; EvAct; EvCheck; EvPerform [Fail 11]; EvAct; EvStop; EvCleanup false] in
+  wrun_ok c s0 evs /\
+  s_io (run c s0 evs) = [1;2;3;4] /\
+  map (fun k => (c_done k, c_data k, c_err k)) (s_calls (run c s0 evs)) = [(true, Some [5;6;7;8;9;10], ECANCELED)] /\
+  let o1 := {| so_id := 1; so_chan := 1; so_random := false |} in
+  let o2 := {| so_id := 2; so_chan := 2; so_random := false |} in
+  let o3 := {| so_id := 3; so_chan := 1; so_random := false |} in
+  let sevs := [SEnq o1; SEnq o2; SEnq o3; SHandler HKeep; SCleanup (Some 1); SHandler HComplete] in
+  srun_ok stream_init sevs /\ q_done (srun stream_init sevs) = [o1; o3; o2] /\ q_io (srun stream_init sevs) = [1; 2] /\
+  let bevs := [BSubmit (IEnq 1); BSubmit (IBar 7); BSubmit (IEnq 2); BRun; BRun; BRun; BLeave 1; BWake; BRun] in
+  brun_ok false b_init bevs /\ b_fired (brun false b_init bevs) = [7] /\ b_log (brun false b_init bevs) = [LEnq 1; LDone 1] /\
+  b_log (brun false b_init (bevs ++ [BBlock 7; BRun])) = [LEnq 1; LDone 1; LBar 7; LEnq 2].
+Proof. vm_compute. repeat split; auto; intuition discriminate. Qed.
